@@ -217,6 +217,9 @@ proofs/MaintProofs.vos proofs/MaintProofs.vok proofs/MaintProofs.required_vos: p
 properties/C14.vo properties/C14.glob properties/C14.v.beautified properties/C14.required_vo: properties/C14.v gen/Params.vo model/Bytes.vo model/Crc32c.vo model/Id.vo model/Node.vo model/BSearch.vo model/Closest.vo model/RTable.vo model/Maint.vo proofs/RTableProofs.vo proofs/MaintProofs.vo
 properties/C14.vio: properties/C14.v gen/Params.vio model/Bytes.vio model/Crc32c.vio model/Id.vio model/Node.vio model/BSearch.vio model/Closest.vio model/RTable.vio model/Maint.vio proofs/RTableProofs.vio proofs/MaintProofs.vio
 properties/C14.vos properties/C14.vok properties/C14.required_vos: properties/C14.v gen/Params.vos model/Bytes.vos model/Crc32c.vos model/Id.vos model/Node.vos model/BSearch.vos model/Closest.vos model/RTable.vos model/Maint.vos proofs/RTableProofs.vos proofs/MaintProofs.vos
+model/CheckApi.vo model/CheckApi.glob model/CheckApi.v.beautified model/CheckApi.required_vo: model/CheckApi.v model/Bytes.vo
+model/CheckApi.vio: model/CheckApi.v model/Bytes.vio
+model/CheckApi.vos model/CheckApi.vok model/CheckApi.required_vos: model/CheckApi.v model/Bytes.vos
 model/Calls.vo model/Calls.glob model/Calls.v.beautified model/Calls.required_vo: model/Calls.v gen/Params.vo model/Bytes.vo model/PutQuery.vo
 model/Calls.vio: model/Calls.v gen/Params.vio model/Bytes.vio model/PutQuery.vio
 model/Calls.vos model/Calls.vok model/Calls.required_vos: model/Calls.v gen/Params.vos model/Bytes.vos model/PutQuery.vos
